@@ -53,6 +53,9 @@ type copyConf struct {
 	Skip []string `json:"skip"`
 	Refs bool     `json:"refs"`
 	Key  string   `json:"key"`
+	// RT: ImageWithReferrerTgt -- the image itself goes to another layout (<work>/other, not
+	// audited), its referrers are written to the audited layout (driver-only class "reftgt")
+	RT bool `json:"rt,omitempty"`
 }
 
 type conf struct {
@@ -83,7 +86,9 @@ type scenario struct {
 		F []string   `json:"f"`
 		X [][]string `json:"x"`
 	} `json:"fin"`
-	Mode string `json:"mode,omitempty"` // "" = gated schedule; "stress" = ungated concurrent run
+	// "" = gated schedule from (D); "free" = gated schedule not generated from (D) (no predicted
+	// states to compare with); "stress" = ungated concurrent run
+	Mode string `json:"mode,omitempty"`
 }
 
 type pend struct {
@@ -108,6 +113,9 @@ type world struct {
 	done    map[string]*copyRes
 	started map[string]bool
 	ended   map[string]bool
+	cancels map[string]context.CancelFunc
+	nabort  int
+	nclose  int
 	opsRun  []*opRes
 
 	drift     []string
@@ -259,7 +267,11 @@ func (w *world) loadRepo(h *simreg.Host, repo string) {
 	for _, n := range names {
 		nd := w.cat.nodes[n]
 		if !nd.Manifest {
-			if d := h.PutBlob(repo, nd.Body); d != nd.Digest {
+			alg := nd.Alg
+			if alg == "" {
+				alg = "sha256"
+			}
+			if d := h.PutBlobAlg(repo, alg, nd.Body); d != nd.Digest {
 				panic("simreg digest differs for " + n)
 			}
 		}
@@ -307,6 +319,17 @@ func (w *world) tgtRef(key, tag, dig string) (ref.Ref, error) {
 		p += "/"
 	case "l":
 		p = w.link
+	case "r":
+		// relative to the working directory of the process
+		wd, err := os.Getwd()
+		if err != nil {
+			return ref.Ref{}, err
+		}
+		rel, err := filepath.Rel(wd, w.dir)
+		if err != nil {
+			return ref.Ref{}, err
+		}
+		p = rel
 	default:
 		return ref.Ref{}, fmt.Errorf("unknown key %q", key)
 	}
@@ -396,6 +419,7 @@ func (w *world) setup(work string) error {
 	w.done = map[string]*copyRes{}
 	w.started = map[string]bool{}
 	w.ended = map[string]bool{}
+	w.cancels = map[string]context.CancelFunc{}
 	return nil
 }
 
@@ -440,10 +464,20 @@ func (w *world) startCopy(c string) error {
 	if cc.Refs {
 		opts = append(opts, regclient.ImageWithReferrers())
 	}
+	if cc.RT {
+		rt := tgt
+		tgt, err = ref.New("ocidir://" + filepath.Join(filepath.Dir(filepath.Dir(w.dir)), "other") + ":" + cc.Tag)
+		if err != nil {
+			return err
+		}
+		opts = append(opts, regclient.ImageWithReferrerTgt(rt))
+	}
+	ctx, cancel := context.WithCancel(w.ctx)
+	w.cancels[c] = cancel
 	w.emit(vtrace.Event{"ev": "copy_begin", "c": c})
 	w.started[c] = true
 	go func() {
-		err := w.rc.ImageCopy(w.ctx, src, tgt, opts...)
+		err := w.rc.ImageCopy(ctx, src, tgt, opts...)
 		w.mu.Lock()
 		w.done[c] = &copyRes{err: err}
 		w.mu.Unlock()
@@ -501,7 +535,16 @@ func (w *world) addSnap(ev vtrace.Event, pfx string, s *snapshot, graph bool) {
 }
 
 func (w *world) doClose(key string) error {
-	r, err := w.tgtRef(key, "", "")
+	// the reference given to Close names the layout; its tag / digest part must not matter
+	w.nclose++
+	tag, dig := "", ""
+	switch w.nclose % 3 {
+	case 1:
+		tag = "t1"
+	case 2:
+		dig = w.cat.nodes["M1"].Digest
+	}
+	r, err := w.tgtRef(key, tag, dig)
 	if err != nil {
 		return err
 	}
@@ -689,6 +732,25 @@ func (w *world) gated(st step) (bool, error) {
 		}
 		return ok, err
 	case "CopyAbort":
+		// the error path of a copy: alternately a request that fails and a cancelled context
+		w.nabort++
+		if w.nabort%2 == 0 {
+			w.mu.Lock()
+			n := 0
+			for _, p := range w.pending {
+				if p.copy == st.C {
+					n++
+				}
+			}
+			w.mu.Unlock()
+			if n == 0 {
+				return false, nil
+			}
+			if cancel := w.cancels[st.C]; cancel != nil {
+				cancel()
+			}
+			return true, w.quiesce()
+		}
 		return w.release(func(p *pend) bool { return p.copy == st.C }, notFound())
 	}
 	return false, fmt.Errorf("unknown gated step %q", st.A)
@@ -756,7 +818,7 @@ func (w *world) run() error {
 			continue
 		}
 		w.scheduled++
-		if exactSoFar && w.adapted == 0 {
+		if exactSoFar && w.adapted == 0 && w.sc.Mode != "free" {
 			exactSoFar = w.checkDrift(i, st.A, st.F, st.X)
 		}
 		var err error
@@ -818,7 +880,7 @@ func (w *world) run() error {
 			return fmt.Errorf("copy %s neither returned nor waits at the gate", c)
 		}
 	}
-	if exactSoFar && w.adapted == 0 {
+	if exactSoFar && w.adapted == 0 && w.sc.Mode != "free" {
 		exactSoFar = w.checkDrift(len(w.sc.Steps), "end", w.sc.Fin.F, w.sc.Fin.X)
 	}
 	if exactSoFar {
